@@ -28,7 +28,7 @@ ASSUMPTIONS = [
     'raffle: a VouchingParameters constant whose checking half equals CheckingParameters vouches values that check',
 ]
 
-FLOORS = {'R19.1': 3, 'R19.2': 3, 'R19.3': 3, 'R19.4': 3, 'R19.5': 1, 'R19.6': 2, 'R19.7': 3, 'R19.8': 2}
+FLOORS = {'R19.1': 3, 'R19.2': 3, 'R19.3': 3, 'R19.4': 3, 'R19.5': 1, 'R19.6': 29, 'R19.7': 3, 'R19.8': 2}
 
 
 class NV:
@@ -282,16 +282,8 @@ def r19_5(cx):
 
 
 def r19_6(cx):
-    """forward only: the monotonic filter and writer exclusivity of the cell (R13.4, R13.5) hold"""
-    sub = cx.__class__(cx.prog, cx.profile, cx.prop)
-    for rid, f in (('R13.4', c13.r13_4), ('R13.5', c13.r13_5)):
-        sub.rule = rid
-        f(sub)
-    for r in sub.records:
-        r = dict(r)
-        r['instance'] = r['rule'] + ':' + r['instance']
-        r['rule'] = cx.rule
-        cx.records.append(r)
+    """forward only, for lock-free readers too: orderings, write-then-publish, validated reads, the monotonic filter and writer exclusivity of the cell (R13.1-R13.5) hold"""
+    compose(cx, [('R13.1', c13.r13_1), ('R13.2', c13.r13_2), ('R13.3', c13.r13_3), ('R13.4', c13.r13_4), ('R13.5', c13.r13_5)])
 
 
 def r19_7(cx):
